@@ -907,7 +907,7 @@ COMPONENTS = {
              'LatexNodes2Text subclass that only records the names read_input_file receives'],
 }
 TIERS = {
-    'quick': {'runs': 36000, 'wall_cap': 300},
+    'quick': {'runs': 32000, 'wall_cap': 300},
     'thorough': {'runs': 700000, 'wall_cap': 3600},
 }
 EXPECTED_PROBES = ['name-leaves-lexically', 'name-steps-on-link', 'extension-fallback-expected',
